@@ -29,7 +29,7 @@ RULE = ('seeded random hierarchies: 1..7 classes, 1..2 trees, single / multiple 
         'int Discriminator column, a stream of invalid definitions (bases from different trees) and of duplicate discriminator values; correspondence = one vm_compute boolean per '
         'observable (valid, all_bases, subclasses, root, criteria, code2cls entry, isinstance condition); search = create objects of every class, then reload in fresh sessions by '
         'select over every class, get by pk through every class of the tree, relationship navigation, isinstance queries (positive / negated, foreign-tree classes); '
-        'queries over a class with a condition on an attribute declared by one of its subclasses, chains Link.h.ref through unloaded placeholders (class at first access), many-to-many collections typed as the root, references of unpickled objects, '
+        'queries over a class with a condition on an attribute declared by one of its subclasses, chains Link.h.ref through unloaded placeholders (class at first access), many-to-many collections typed as the root (one owner; three owners in the session cache read one after another, which bulk-loads), references of unpickled objects, '
         'lookup by pk through every class after the object entered the identity map as an unloaded seed of a base-typed reference (falsy discriminator values 0 / \'\' on non-leaf classes included); '
         'non-trivial = hierarchies with at least one subclass (distinct specs counted)')
 
@@ -367,6 +367,20 @@ def check_hierarchy(spec, rng, n_isinst=8):
             fails.append(Failure('m2m-collection-item-has-base-class' if not has_duplicates(spec) and isinstance(got, list) and [g[0] for g in got] == [w[0] for w in want]
                                  and all(g[1] == r for g, w in zip(got, want) if g != w) else key_for(spec, 'm2m', 'other'),
                                  'C27 m2m: iterating Holder.many%d gives (pk, class at first access) %r, created %r (hierarchy %s)' % (r, got, want, json.dumps(spec)), {'spec': spec, 'route': 'm2m'}))
+    # R8b several owners of one many-to-many attribute in the session cache, collections read one after another (the second read bulk-loads the rest)
+    for r in b.roots:
+        if len(created) == 0: continue
+        for order in ([0, 1, 2], [2, 0, 1]):
+            for pre in ('iter', 'len'):
+                try: got = c27_impl.many_iter_multi(b, r, order, pre)
+                except Exception as ex: got = 'EXC %s' % type(ex).__name__
+                evals += 1
+                want = [x for n in order for x in sorted((n, pk, k) for pk, k in b.many_multi[r][n][1])]
+                if got != want:
+                    fails.append(Failure(key_for(spec, 'm2m-several-owners', pre),
+                                         'C27 m2m-several-owners: three Holders fetched, Holder.many%d read in owner order %r (%s): (owner, pk, class at first access) %r, created %r (hierarchy %s)'
+                                         % (r, order, pre, got, want, json.dumps(spec)), {'spec': spec, 'route': 'm2m-several-owners'}))
+                    break
     # R9 a reference of an unpickled object
     for hpk, (c, r, pk) in sorted(b.seed_holders.items())[:6]:
         got = c27_impl.unpickled_ref(b, hpk, c)
